@@ -10,15 +10,15 @@ func init() {
 	serve("C07", "B6", "B6m", "G5", "G6r", "B2", "B3")
 	serve("C08", "G4", "G8", "G12", "R4", "B6", "B6m")
 	serve("C09", "L1", "L2", "P3", "P3c", "L6", "S4", "G7")
-	serve("C10", "P3", "P3w", "P4", "P5", "L1")
+	serve("C10", "P3", "P3w", "P4", "P5", "P7", "L1")
 	serve("C11", "R1", "R2", "R3", "R4", "P1", "P2")
 	serve("C12", "S2", "S3", "S4", "S6", "V3")
 	serve("C13", "S1", "S5")
 	serve("C14", "L4", "L1", "L5", "G6", "G6r", "V1")
-	serve("C15", "L1", "G3", "L7")
-	serve("C16", "G1", "G9", "G10", "R4")
+	serve("C15", "L1", "G3", "G13", "L7")
+	serve("C16", "G1", "G1b", "G9", "G10", "R4")
 	serve("C17", "P1", "L2", "L3", "G11")
-	serve("C18", "L1", "L2", "L6", "P2", "R4", "G10")
+	serve("C18", "L1", "L2", "L6", "P2", "R4", "G10", "G14")
 	serve("C19", "P3", "P6", "L1", "L6")
 	serve("C20", "G2", "R4", "L2", "L3")
 	serve("C06", "T1", "T2", "T3", "T4", "T5", "B2", "B3")
@@ -26,6 +26,6 @@ func init() {
 
 func init() {
 	// pseudo-property used only to validate the corpus in one run
-	serve("ALL", "T1", "T2", "T3", "T4", "T5", "T6", "T8", "T9", "B1", "B1n", "B2", "B3", "B3b", "B4", "B6", "B6m", "F1", "F2", "G1", "G2", "G3", "G4", "G5", "G6", "G6r", "G7", "G8", "G9", "G10", "G11", "G12",
+	serve("ALL", "T1", "T2", "T3", "T4", "T5", "T6", "T8", "T9", "B1", "B1n", "B2", "B3", "B3b", "B4", "B6", "B6m", "F1", "F2", "G1", "G2", "G3", "G4", "G5", "G6", "G6r", "G7", "G8", "G9", "G10", "G11", "G12", "G13", "G14", "G1b", "P7",
 		"L1", "L2", "L3", "L4", "L5", "L6", "L7", "P1", "P2", "P3", "P3c", "P3w", "P4", "P5", "P6", "R1", "R2", "R3", "R4", "S1", "S2", "S3", "S4", "S5", "S6", "V1", "V2", "V3", "V4", "W1", "W2")
 }
